@@ -69,6 +69,7 @@ def modeOf : String → Option Mode
   | "single" => some .single
   | "replicated" => some .replicated
   | "clustered" => some .clustered
+  | "clustered_replicated" => some .clusteredReplicated
   | _ => none
 
 def parseFault (s : String) : Option (Option Fault) :=
